@@ -421,11 +421,13 @@ def step (H : Hashes) (dirLen : Nat) (s : State) : Op → State × Resp
     match objPath b k with
     | .error e => (s, .err e)
     | .ok (bd, p) =>
+      -- fe75a0e: `!path.exists()`: a missing bucket (`get_bucket_path(bucket)?.exists()`; it cannot fail where
+      -- `get_object_path` succeeded) is `NoSuchBucket`, a missing key in an existing bucket is a success
       match s.tree bd with
-      | none => (s, .err .NoSuchKey)
+      | none => (s, .err .NoSuchBucket)
       | some t =>
         match t.node p with
-        | none => (s, .err .NoSuchKey)
+        | none => (s, .ok)
         | some n =>
           if endsWithSlash k then
             match n with
